@@ -136,19 +136,11 @@ pub fn job_c02(out_dir: &str, tier: &str, seed: u64) {
     sets.extend(invariant_mutating_sets());
     let mut n = 0usize;
     let all = |_: &str| true;
-    let mut inputs: Vec<Vec<u8>> = (0..gen::FRAGS.len()).map(|i| gen::frag_bytes(i).to_vec()).collect();
-    let mut pool: Vec<usize> = (0..gen::FRAGS.len()).collect();
-    for i in (1..pool.len()).rev() { pool.swap(i, rng.below(i + 1)); }
-    pool.truncate(if quick { 30 } else { 80 });
-    for &a in &pool { for &b in &pool { let mut x = gen::frag_bytes(a).to_vec(); x.extend_from_slice(gen::frag_bytes(b)); inputs.push(x); } }
-    let nrand = if quick { 900 } else { 30000 };
-    for i in 0..nrand {
-        inputs.push(match i % 4 { 0 => gen::random_doc(&mut rng, 14), 1 => gen::random_input(&mut rng, 3, 9), 2 => gen::random_bytes(&mut rng, 40),
-            _ => { let mut v = gen::random_doc(&mut rng, 8); v.extend_from_slice("<p>é日本😀</p><a href=é>".as_bytes()); v.extend_from_slice(&gen::random_input(&mut rng, 1, 4)); v } });
-    }
+    let mut inputs = gen::corpus(&mut rng, if quick { 30 } else { 80 }, if quick { 1200 } else { 40000 });
+    for _ in 0..(if quick { 200 } else { 5000 }) { inputs.push(gen::random_bytes(&mut rng, 40)); }
     let encs = if quick { gen::ENCODINGS_QUICK } else { gen::ENCODINGS_ALL };
     for (ii, input) in inputs.iter().enumerate() {
-        let nsets = if ii < gen::FRAGS.len() { 5 } else { 2 };
+        let nsets = if ii < 4 * gen::FRAGS.len() { 4 } else { 2 };
         for si in 0..nsets {
             let (_, hs) = &sets[(ii * 3 + si * 7) % sets.len()];
             let enc = if ii % 4 == 3 { encs[(ii / 4 + si) % encs.len()] } else { "utf-8" };
@@ -220,17 +212,9 @@ pub fn job_c06(out_dir: &str, tier: &str, seed: u64) {
         }
         c
     };
-    let mut inputs: Vec<Vec<u8>> = (0..gen::FRAGS.len()).map(|i| gen::frag_bytes(i).to_vec()).collect();
-    let mut pool: Vec<usize> = (0..gen::FRAGS.len()).collect();
-    for i in (1..pool.len()).rev() { pool.swap(i, rng.below(i + 1)); }
-    pool.truncate(if quick { 24 } else { 70 });
-    for &a in &pool { for &b in &pool { let mut x = gen::frag_bytes(a).to_vec(); x.extend_from_slice(gen::frag_bytes(b)); inputs.push(x); } }
-    for i in 0..(if quick { 1200 } else { 30000 }) {
-        inputs.push(match i % 3 { 0 => gen::random_doc(&mut rng, 16), 1 => gen::random_input(&mut rng, 3, 10), _ => {
-            let mut v = gen::random_doc(&mut rng, 8); v.extend_from_slice(&gen::random_input(&mut rng, 2, 5)); v } });
-    }
+    let inputs = gen::corpus(&mut rng, if quick { 24 } else { 70 }, if quick { 2000 } else { 40000 });
     for (ii, input) in inputs.iter().enumerate() {
-        let nh = if ii < gen::FRAGS.len() { 3 } else { 2 };
+        let nh = if ii < 4 * gen::FRAGS.len() { 3 } else { 2 };
         for hi in 0..nh {
             let h = &hsets[(ii + hi * 3) % hsets.len()];
             let n_e = h.get("elem").and_then(|x| x.as_array()).map(|a| a.len()).unwrap_or(0);
